@@ -1,5 +1,5 @@
 //! BOUNDED probe (C06 / C11 / C05 / C12): 1..=3 requests started at offsets from {0, 0, 500, 1000, 1500} ms (equal
-//! deadlines included), the client polled with on_timeout at every 500 ms tick up to 45 s. Each request must be sent
+//! deadlines included), the client polled with on_timeout at every 500 ms tick (exact calls) and every 700 / 1100 ms (late calls) up to 47 s. Each request must be sent
 //! again exactly at start + {500, 1500, 3500, 7500, 15500, 31500} ms and reported TimedOut exactly once at start + 39500 ms
 //! (RFC 8489 6.2.1 with the default RTO 500 ms, Rc 7, Rm 16); nothing else may be emitted.
 use std::collections::HashMap;
@@ -10,7 +10,7 @@ use stun_rs::TransactionId;
 
 fn ms(v: u64) -> Duration { Duration::from_millis(v) }
 
-fn run(starts: &[u64]) -> Result<(), String> {
+fn run(starts: &[u64], period: u64) -> Result<(), String> {
     let mut client: StunClient = StunClienteBuilder::new(TransportReliability::Unreliable(RttConfig::default())).build().map_err(|e| format!("{:?}", e))?;
     let t0 = Instant::now();
     let mut by_bytes: HashMap<Vec<u8>, usize> = HashMap::new();
@@ -19,7 +19,9 @@ fn run(starts: &[u64]) -> Result<(), String> {
     let mut failed: Vec<Vec<u64>> = vec![Vec::new(); starts.len()];
     let mut next_start = 0usize;
     let mut tick = 0u64;
-    while tick <= 45_000 {
+    // first poll tick at or after t
+    let at = |t: u64| -> u64 { ((t + period - 1) / period) * period };
+    while tick <= 47_000 {
         let now = t0 + ms(tick);
         client.on_timeout(now);
         for e in client.events() {
@@ -36,7 +38,7 @@ fn run(starts: &[u64]) -> Result<(), String> {
                 other => return Err(format!("unexpected event at {} ms: {:?}", tick, other)),
             }
         }
-        while next_start < starts.len() && starts[next_start] == tick {
+        while next_start < starts.len() && starts[next_start] <= tick {
             let id = client.send_request(BINDING, StunAttributes::default(), vec![0; 256], now).map_err(|e| format!("send_request: {:?}", e))?;
             let mut n = 0;
             for e in client.events() {
@@ -46,9 +48,18 @@ fn run(starts: &[u64]) -> Result<(), String> {
             ids.push(id);
             next_start += 1;
         }
-        tick += 500;
+        tick += period;
     }
     for k in 0..starts.len() {
+        // a request handed over at poll tick s0 is due at s0 + offset and served by the first poll at or after that time
+        let s0 = at(starts[k]);
+        let want: Vec<u64> = [500u64, 1500, 3500, 7500, 15500, 31500].iter().map(|o| at(s0 + o) - starts[k]).collect();
+        let want_fail = vec![at(s0 + 39500) - starts[k]];
+        if period != 500 {
+            if resent[k] != want { return Err(format!("polling every {} ms: request {} (started at {} ms) was retransmitted at offsets {:?}, expected {:?}", period, k, starts[k], resent[k], want)); }
+            if failed[k] != want_fail { return Err(format!("polling every {} ms: request {} (started at {} ms) timed out at offsets {:?}, expected {:?}", period, k, starts[k], failed[k], want_fail)); }
+            continue;
+        }
         if resent[k] != vec![500, 1500, 3500, 7500, 15500, 31500] {
             return Err(format!("request {} (started at {} ms) was retransmitted at offsets {:?}", k, starts[k], resent[k]));
         }
@@ -65,7 +76,11 @@ fn main() {
     for a in offs { cases.push(vec![a]); for b in offs { if b >= a { cases.push(vec![a, b]); for c in offs { if c >= b { cases.push(vec![a, b, c]); } } } } }
     let mut bad = 0;
     for c in &cases {
-        if let Err(e) = run(c) { println!("WITNESS: starts {:?} ms: {}", c, e); bad += 1; if bad > 3 { break; } }
+        if let Err(e) = run(c, 500) { println!("WITNESS: starts {:?} ms: {}", c, e); bad += 1; if bad > 3 { break; } }
+        // late timer calls: deadlines are absolute (start + schedule), a late call does not shift the later ones
+        for period in [700u64, 1100] {
+            if let Err(e) = run(c, period) { println!("WITNESS: starts {:?} ms: {}", c, e); bad += 1; if bad > 3 { break; } }
+        }
     }
     if bad == 0 { println!("ok: {} start patterns follow the RFC 8489 schedule", cases.len()); } else { std::process::exit(1); }
 }
